@@ -85,8 +85,7 @@ def fresh_oracle(h, rec):
     from gx.hist_run import circ_order_only, CIRC_ORDER_SIG
     if circ_order_only(doc, d):
       sig = CIRC_ORDER_SIG % "fresh"
-    elif cells and len(cells) == len(d) and all(
-        stale_removed_key(doc, sch, x.split(" ")[1].split("[")[0], x.split("].", 1)[1].split(":")[0]) for x in cells):
+    elif __import__("gx.hist_run", fromlist=["x"]).stale_lookup_only(doc, d):
       sig = STALE_LOOKUP_SIG
     h._find(PROP, sig, "; ".join(d[:3]) + " (first=incremental, second=fresh)", rec)
     h._c05_dead = True      # the live engine is known to have diverged: stop judging this history
